@@ -53,8 +53,11 @@ func vNext(kind, tag string) *vInputRec {
 	if vPos >= len(vIn) {
 		panic(fmt.Sprintf("verif replay: ran out of inputs at %s %q", kind, tag))
 	}
-	for vPos < len(vIn) && vIn[vPos].K == "now" { // engine-side clock readings have no native counterpart
+	for vPos < len(vIn) && (vIn[vPos].K == "now" || vIn[vPos].K == "env") { // engine-side clock readings / environment-model choices have no native counterpart
 		vPos++
+	}
+	if vPos >= len(vIn) {
+		panic(fmt.Sprintf("verif replay: ran out of inputs at %s %q", kind, tag))
 	}
 	r := &vIn[vPos]
 	vPos++
@@ -107,6 +110,9 @@ func vChoice(tag string, n int) int {
 	vLog = append(vLog, vInputRec{K: "choice", T: tag, N: k})
 	return k
 }
+
+// vEnvChoice is only called from engine-side environment models; natively it is random.
+func vEnvChoice(tag string, n int) int { return rand.Intn(n) }
 
 func vBool(tag string) bool       { return vScalar("bool", tag, 1) != 0 }
 func vByte(tag string) byte       { return byte(vScalar("u8", tag, 8)) }
